@@ -118,7 +118,7 @@ PLAN = {
     "C01": {"verus": ["daemon_peer_tx", "daemon_export"], "level": "proof",
             # of the export unit, C01 looks at the diff of the exportable window against what was sent
             "fn_filter": {"daemon_export": ["process_nlri_change"]}},
-    "C05": {"verus": ["packet_validate", "packet_parse"], "kani": ["c05_canonical_flags_table"], "level": "proof"},
+    "C05": {"verus": ["packet_validate", "packet_parse"], "kani": ["c05_canonical_flags_table"] + ["c05_attr_decode_" + x for x in ("origin", "med", "local_pref", "atomic_aggregate", "aggregator", "community", "originator_id", "cluster_list", "ext_community", "as4_aggregator", "large_community")], "level": "proof"},
     "C06": {"verus": [], "kani": ["c06_id_alloc_unique", "c06_id_dealloc_exact", "c06_id_alloc_mustfail"], "level": "other",
             "explanation": "BOUNDED stand-in, not a proof: Kani/CBMC harnesses on the real IdAllocator::{alloc,dealloc} with <= 4 bitmap words (256 live ids per shard), every word over its full 64-bit domain, under the representation invariant 'no trailing zero word': alloc returns the least free id, which no live prefix holds, marks exactly it live and keeps the shard index in bits 31..24; dealloc frees exactly its id and restores the invariant. Only the identifier-uniqueness clause of C06 is addressed; the change-stream fold and the end-of-deferral clause live in Table::{insert,remove,end_deferral,...} (note T) and are not covered."},
     "C07": {"verus": ["daemon_fsm", "packet_parse"], "level": "proof"},
